@@ -4,6 +4,7 @@ import (
 	"context"
 	"fmt"
 	"sort"
+	"strings"
 	"unique"
 
 	"github.com/samber/lo"
@@ -110,6 +111,7 @@ func (n *aNC) ResourceSlices() map[dra.InstanceTypeID][]dra.ResourceSlice {
 
 type acase struct {
 	Kind     string           `json:"kind"`
+	KfKey    string           `json:"kf_key,omitempty"`
 	Setup    map[string]any   `json:"setup"`
 	Ops      []string         `json:"ops"`
 	Failures int              `json:"allocations_refused"`
@@ -456,6 +458,7 @@ func runA(c *kit.Ctx, r *kit.Rand, idx int) {
 	claimNo := 0
 	nOps := r.Range(4, 10)
 	var lastNC *aNC
+	kfKey := ""
 	for i := 0; i < nOps; i++ {
 		n := kit.Pick(r, ncs)
 		if lastNC != nil && r.Chance(2, 5) { // several pods land on the same NodeClaim
@@ -625,6 +628,10 @@ func runA(c *kit.Ctx, r *kit.Rand, idx int) {
 			gobs = append(gobs, "(DPanic, [], [], [], [])")
 			jops = append(jops, fmt.Sprintf("allocate+commit %s %v on %s -> PANIC %s", claim.Name, jreq, n.id, msg))
 			c.Count("A:commit:panic")
+			if strings.Contains(msg, "attempted to commit claim which was already allocated") && lo.ContainsBy(claims, func(cl *resourcev1.ResourceClaim) bool { return cl.Name == "migrating-claim" }) {
+				kfKey = "claim-reserved-only-by-deleting-pods-is-allocated-again-for-a-second-pod"
+				c.Count("A:commit:panic-migrating-claim-allocated-twice")
+			}
 			break
 		}
 		committed = append(committed, claims...)
@@ -665,7 +672,7 @@ func runA(c *kit.Ctx, r *kit.Rand, idx int) {
 		key = fmt.Sprint("A:", setup, jops)
 	}
 	c.AddCase(fmt.Sprintf("CaseX %s %s %s %s %s %s %s %s true %s %s", kit.GStrs(pre), kit.GStrs(udevs), kit.GStrs(uncs), kit.GStrs(itNames), kit.GStrs(ks),
-		gKVs(rem0), gKVs(capb), gKVs(tbudget), kit.GList(gops), kit.GList(gobs)), acase{"dra-allocator", setup, jops, failures, nil}, key)
+		gKVs(rem0), gKVs(capb), gKVs(tbudget), kit.GList(gops), kit.GList(gobs)), acase{"dra-allocator", kfKey, setup, jops, failures, nil}, key)
 
 	// ---- final-state oracle over the claim allocation metadata
 	var metas []claimMeta
@@ -675,7 +682,7 @@ func runA(c *kit.Ctx, r *kit.Rand, idx int) {
 	grecs, jrecs := finalRecords(w, metas)
 	budgets := lo.Assign(map[string]int64{}, rem0, capb)
 	c.Count(fmt.Sprintf("A:final:records:%d", lo.Min([]int{len(grecs) / 3 * 3, 12})))
-	c.AddCase(fmt.Sprintf("CaseF %s %s %s %s", kit.GStrs(pre), gKVs(budgets), gKVs(tbudget), kit.GList(grecs)), acase{"dra-final-state", setup, jops, failures, jrecs}, "")
+	c.AddCase(fmt.Sprintf("CaseF %s %s %s %s", kit.GStrs(pre), gKVs(budgets), gKVs(tbudget), kit.GList(grecs)), acase{"dra-final-state", "", setup, jops, failures, jrecs}, "")
 }
 
 // ------------------------------------------------------------------ part B: tracker budgets driven directly (pessimistic maximum)
